@@ -2,6 +2,7 @@ package idlgen
 
 import (
 	"fmt"
+	"strconv"
 	"strings"
 )
 
@@ -72,10 +73,24 @@ func (c *Const) String() string {
 	panic("idlgen: bad const kind")
 }
 
+// idTextDenotes: does the written id text denote id under thriftgo's rule (base 10 first, then Go's prefixed forms)?
+// Anything that rewrites ID afterwards (shrinkers, edits) simply falls back to the decimal rendering.
+func idTextDenotes(text string, id int16) bool {
+	v, err := strconv.ParseInt(text, 10, 32)
+	if err != nil {
+		v, err = strconv.ParseInt(text, 0, 32)
+	}
+	return err == nil && v == int64(id)
+}
+
 func (p *Program) fieldStr(fi int, f *Field, sepSeed int) string {
 	var sb strings.Builder
 	if f.HasID {
-		fmt.Fprintf(&sb, "%d: ", f.ID)
+		if f.IDText != "" && idTextDenotes(f.IDText, f.ID) {
+			sb.WriteString(f.IDText + ": ")
+		} else {
+			fmt.Fprintf(&sb, "%d: ", f.ID)
+		}
 	}
 	switch f.Req {
 	case Required:
